@@ -765,9 +765,23 @@ async fn v5_publish(app: Rc<App>, mut p: v5::Publish, route: String) -> Result<v
         detached,
     )
     .await;
+    let decor = app.ack_decor.borrow().clone();
+    let decorate = move |mut a: v5::PublishAck| {
+        if let Some((reason, ups)) = decor {
+            a = a.properties(|p| {
+                for (k, v) in &ups {
+                    p.push((ByteString::from(k.as_str()), ByteString::from(v.as_str())));
+                }
+            });
+            if let Some(r) = reason {
+                a = a.reason(ByteString::from(r));
+            }
+        }
+        a
+    };
     match o {
-        Outcome::Ok => Ok(p.ack()),
-        Outcome::AckCode(c) => Ok(p.ack().reason_code(v5::codec::PublishAckReason::try_from(c).unwrap_or(v5::codec::PublishAckReason::UnspecifiedError))),
+        Outcome::Ok => Ok(decorate(p.ack())),
+        Outcome::AckCode(c) => Ok(decorate(p.ack().reason_code(v5::codec::PublishAckReason::try_from(c).unwrap_or(v5::codec::PublishAckReason::UnspecifiedError)))),
         Outcome::Err => Err(TestErr::Plain),
         Outcome::Nack(c) => Err(TestErr::Nack(c)),
     }
@@ -789,13 +803,46 @@ async fn v5_protocol(app: Rc<App>, msg: v5::ProtocolMessage) -> Result<v5::Proto
                     let q = sub.options().qos;
                     sub.confirm(q);
                 }
+                if let Some((reason, ups)) = app.ack_decor.borrow().clone() {
+                    s = s.ack_properties(|p| {
+                        for (k, v) in &ups {
+                            p.push((ByteString::from(k.as_str()), ByteString::from(v.as_str())));
+                        }
+                    });
+                    if let Some(r) = reason {
+                        s = s.ack_reason(ByteString::from(r));
+                    }
+                }
                 s.ack()
             }
             v5::ProtocolMessage::Unsubscribe(mut s) => {
                 for mut it in &mut s {
                     it.success();
                 }
+                if let Some((reason, ups)) = app.ack_decor.borrow().clone() {
+                    s = s.ack_properties(|p| {
+                        for (k, v) in &ups {
+                            p.push((ByteString::from(k.as_str()), ByteString::from(v.as_str())));
+                        }
+                    });
+                    if let Some(r) = reason {
+                        s = s.ack_reason(ByteString::from(r));
+                    }
+                }
                 s.ack()
+            }
+            v5::ProtocolMessage::PublishRelease(mut r) => {
+                if let Some((reason, ups)) = app.ack_decor.borrow().clone() {
+                    r = r.properties(|p| {
+                        for (k, v) in &ups {
+                            p.push((ByteString::from(k.as_str()), ByteString::from(v.as_str())));
+                        }
+                    });
+                    if let Some(rs) = reason {
+                        r = r.reason(ByteString::from(rs));
+                    }
+                }
+                r.ack()
             }
             v5::ProtocolMessage::Auth(a) => a.ack(v5::codec::Auth::default()),
             other => other.ack(),
